@@ -572,9 +572,12 @@ def job_scale(j):
     iterations, runs every node once and respects the dependencies (spec-free monitor).  Free-running, both flavours."""
     rng = random.Random(j["seed"])
     col = Collector()
+    pid = j.get("pid", "C09")
     for k in range(j.get("n_cases", 3)):
         kind = rng.choice(["chain", "fan", "grid", "binary"])
         n = rng.randint(j.get("nmin", 200), j.get("nmax", 600))
+        if k == 0:
+            kind, n = "chain", rng.randint(520, 700)  # deeper than half of Python's default recursion limit
         fns = {"g%d" % q: dict(priority=rng.choice([0, 1, 2]), is_sequential=False, resource=rng.choice(["thread", "thread", "async-thread", "main-thread"]))
                for q in range(4)}
         nodes = []
@@ -594,8 +597,23 @@ def job_scale(j):
         sinks = set(range(n)) - {a[1] for nd in nodes for a in nd["args"] if a[0] == "n"}
         sp = {"name": "big", "params": ["x"], "defaults": {}, "fns": fns, "nodes": nodes,
               "ret": ["tuple", [["n", i, []] for i in sorted(sinks)[:50]]], "mc": rng.randint(1, 8), "is_async": rng.random() < 0.3}
-        d, _env, plain = S.build_tawazi(sp)
+        rp = {"kind": "rerun_job", "job": dict(j, n_cases=k + 1), "shape": kind, "nodes": n, "mc": sp["mc"], "is_async": sp["is_async"]}
+        col.evaluations += 1
+        try:
+            d, _env, plain = S.build_tawazi(sp)
+        except BaseException as e:  # noqa: BLE001
+            if isinstance(e, (KeyboardInterrupt, SystemExit)):
+                raise
+            col.violation(pid, "large_dag_could_not_be_built", dict(shape=kind, nodes=n, exc=repr(e)[:200]), rp)
+            continue
         ids = S.node_ids(sp)
+        if pid == "C07":
+            cp = S.cp_spec(sp)
+            table = d.graph_ids.compound_priority
+            wrong = [ids[i] for i in range(n) if table.get(ids[i]) != cp[i]][:5]
+            col.counters["cp_table_checks"] += 1
+            if wrong:
+                col.violation(pid, "cp_table_differs_from_spec(large_dag)", dict(shape=kind, nodes=n, first_wrong=wrong), rp)
         B.reset_log()
         probes.reset_counts()
         B.Settings.controlled = False
@@ -605,25 +623,23 @@ def job_scale(j):
         finally:
             B.Settings.step_limit = 0
         log = B.snapshot()
-        col.evaluations += 1
         col.counters["scale_cases_%s" % kind] += 1
         col.counters["scale_nodes"] += n
         col.hashes.add(S.spec_hash({"k": kind, "n": n, "mc": sp["mc"], "a": sp["is_async"], "seed": j["seed"], "i": k}))
-        rp = {"kind": "rerun_job", "job": dict(j, n_cases=k + 1), "shape": kind, "nodes": n, "mc": sp["mc"], "is_async": sp["is_async"]}
         col.generic(log, rp)
         if res[0] != "ok":
-            col.violation("C09", "large_dag_call_raised", dict(shape=kind, nodes=n, exc=repr(res[1])[:300]), rp)
+            col.violation(pid, "large_dag_call_raised", dict(shape=kind, nodes=n, exc=repr(res[1])[:300]), rp)
             continue
         ent = Counter(e["node"] for e in log if e["kind"] == "FENTER")
         bad = [x for x in ids if ent.get(x, 0) != 1]
         if bad:
-            col.violation("C09", "returned_normally_while_selected_active_node_has_not_run", dict(shape=kind, nodes=n, not_exactly_once=bad[:10]), rp)
+            col.violation(pid, "returned_normally_while_selected_active_node_has_not_run", dict(shape=kind, nodes=n, not_exactly_once=bad[:10]), rp)
         ref = S.run_reference(sp, [Sym("arg", k)], plain)
         if ref[0] == "ok":
             from .sym import same, short
 
             if not same(ref[1].result, res[1]):
-                col.violation("C09", "large_dag_returned_wrong_value", dict(shape=kind, nodes=n, got=short(res[1], 200)), rp)
+                col.violation(pid, "large_dag_returned_wrong_value", dict(shape=kind, nodes=n, got=short(res[1], 200)), rp)
         if k == 0:
             col.sample(dict(shape=kind, nodes=n, max_concurrency=sp["mc"], is_async=sp["is_async"],
                             scheduler_iterations=max([e.get("steps", 0) for e in log if e["kind"] == "STEPS"] or [0])))
